@@ -438,7 +438,12 @@ def run(cfg):
                 continue
             evals += 2
             if not np.all(np.isfinite(a)) or not np.all(np.isfinite(b)):
-                skipped += 1
+                # the proximal of a proper lsc convex functional is finite at every finite x: a
+                # non-finite entry is either a library failure at this x (C07 judges the same
+                # call) or memory nobody wrote (allocations are NaN-poisoned, mc/poison.py)
+                first.setdefault('proximal_not_finite' + lvl,
+                                 'sigma=%s x=%s prox_f(x)=%s prox_f*(x/sigma)=%s'
+                                 % (sg, x.tolist(), a.tolist(), b.tolist()))
                 continue
             r = a + sg * b
             if np.max(np.abs(r - x)) > max(tol, 1e-8) * (1 + np.max(np.abs(x))):
